@@ -1,5 +1,6 @@
 import Driver.Json
 import OomdModel.Fault
+import OomdModel.CtxFault
 
 /-! Driver glue for engine `h_tick` (C10). -/
 namespace Driver.Tick
@@ -142,6 +143,142 @@ def handleTick (sc tr : Json) : Json :=
   let viol := v1 ++ v2
   verdict id viol.isEmpty viol.isEmpty viol (if r == "throws" then s!"tick-throws:{jstr tr "what"}" else "tick")
 
+/-! ### kind `ctx`: the accessor layer (OomdModel.CtxFault) against the real CgroupContext -/
+
+open OomdModel.CtxFault in
+/-- `sscanf("%d:%d rbytes=%ld wbytes=%ld rios=%ld wios=%ld dbytes=%ld dios=%ld")`: all eight conversions or nothing -/
+def scanIoLine (l : Str) : Option IoLine :=
+  let toks := (split l ' ').filter (fun t => !t.isEmpty)
+  match toks with
+  | dev :: rest =>
+    let mm := split dev ':'
+    let keys := ["rbytes", "wbytes", "rios", "wios", "dbytes", "dios"]
+    if mm.length != 2 || !(mm.all fun x => (stoi x).isSome) || rest.length < 6 then none
+    else
+      let vals := (keys.zip rest).map fun (k, t) =>
+        if (k ++ "=").toList.isPrefixOf t then stoll (t.drop (k.length + 1)) else none
+      if vals.all Option.isSome then some { dev := dev, vals := vals.filterMap id } else none
+  | [] => none
+
+open OomdModel.CtxFault in
+def ctxParsers : Parsers := { num := stoll, fnum := psiNum, scan := scanKv, scanIo := scanIoLine }
+
+/-- state of `file` of cgroup `cg`: the scenario's content unless a fault names it -/
+def ctxFileSt (sc : Json) (cg file : String) : FileSt :=
+  match (jarr sc "faults").find? (fun f => jstr f "cg" == cg && jstr f "file" == file) with
+  | some f =>
+    match jstr f "state" with
+    | "absent" => .absent
+    | "denied" => .denied
+    | "isdir" => .unreadable
+    | "empty" => .lines []
+    | _ => .lines (toLines (jstr f "content"))
+  | none =>
+    match jstr? (jobj (jobj sc "cgroups") cg) file with
+    | some c => .lines (toLines c)
+    | none => .absent
+
+open OomdModel.CtxFault in
+def ctxFiles (sc : Json) (cg : String) : CgFiles :=
+  let f := ctxFileSt sc cg
+  { memCurrent := f "memory.current", swapCurrent := f "memory.swap.current", swapMax := f "memory.swap.max",
+    memLow := f "memory.low", memMin := f "memory.min", memHigh := f "memory.high", memHighTmp := f "memory.high.tmp",
+    memMax := f "memory.max", memStat := f "memory.stat", cgStat := f "cgroup.stat", events := f "cgroup.events",
+    oomGroupF := f "memory.oom.group", memPressure := f "memory.pressure", ioPressure := f "io.pressure", ioStat := f "io.stat" }
+
+def parentOf (cg : String) : String :=
+  match (cg.splitOn "/").dropLast with
+  | [] => ""
+  | ps => "/".intercalate ps
+
+open OomdModel.CtxFault in
+/-- chain from `cg` up to the top level; the siblings of a level are the scenario's cgroups with the same parent -/
+partial def ctxChain (sc : Json) (names : List String) (cg : String) : List Level :=
+  if cg.isEmpty then [] else
+  let par := parentOf cg
+  let sibs := names.filter fun n => parentOf n == par
+  { r := readingsOf ctxParsers (ctxFiles sc cg), parentOpen := true, sibs := sibs.map fun n => readingsOf ctxParsers (ctxFiles sc n) }
+    :: ctxChain sc names par
+
+open OomdModel.CtxFault in
+def accName : Acc → String
+  | .currentUsage => "currentUsage" | .swapUsage => "swapUsage" | .swapMax => "swapMax" | .memoryLow => "memoryLow"
+  | .memoryMin => "memoryMin" | .memoryHigh => "memoryHigh" | .memoryHighTmp => "memoryHighTmp" | .memoryMax => "memoryMax"
+  | .nrDying => "nrDying" | .isPopulated => "isPopulated" | .oomGroup => "oomGroup" | .memPressure => "memPressure"
+  | .memPressureSome => "memPressureSome" | .ioPressure => "ioPressure" | .ioPressureSome => "ioPressureSome"
+  | .memoryStat => "memoryStat" | .ioStat => "ioStat" | .anonUsage => "anonUsage" | .fileUsage => "fileUsage"
+  | .shmemUsage => "shmemUsage" | .pgScanCumulative => "pgScanCumulative" | .pgScanRate => "pgScanRate"
+  | .ioCostCumulative => "ioCostCumulative" | .ioCostRate => "ioCostRate" | .averageUsage => "averageUsage"
+  | .memoryGrowth => "memoryGrowth" | .rawProtection => "rawProtection" | .memoryProtection => "memoryProtection"
+  | .effectiveUsage => "effectiveUsage" | .effectiveSwapMax => "effectiveSwapMax" | .effectiveSwapFree => "effectiveSwapFree"
+  | .effectiveSwapUtil => "effectiveSwapUtil"
+
+/-- the statistics the property expects to be unavailable when `file` of the target itself is missing / unopenable /
+unreadable (an *empty* key-value or io.stat file reads as an empty table, so only the keyed look-ups are affected) -/
+def dependents (file state : String) : List String :=
+  let gone := state != "empty"
+  match file with
+  | "memory.current" => ["currentUsage", "averageUsage", "memoryGrowth", "effectiveUsage"]
+  | "memory.swap.current" => ["swapUsage"]
+  | "memory.swap.max" => ["swapMax", "effectiveSwapMax", "effectiveSwapFree", "effectiveSwapUtil"]
+  | "memory.low" => ["memoryLow"]
+  | "memory.min" => ["memoryMin"]
+  | "memory.high" => ["memoryHigh"]
+  | "memory.high.tmp" => ["memoryHighTmp"]
+  | "memory.max" => ["memoryMax"]
+  | "memory.stat" => (if gone then ["memoryStat"] else []) ++ ["anonUsage", "fileUsage", "shmemUsage", "pgScanCumulative", "pgScanRate"]
+  | "cgroup.stat" => if gone then ["nrDying"] else []
+  | "cgroup.events" => ["isPopulated"]
+  | "memory.oom.group" => if gone then ["oomGroup"] else []
+  | "memory.pressure" => ["memPressure", "memPressureSome"]
+  | "io.pressure" => ["ioPressure", "ioPressureSome"]
+  | "io.stat" => if gone then ["ioStat", "ioCostCumulative", "ioCostRate"] else []
+  | _ => []
+
+open OomdModel.CtxFault in
+def handleCtx (sc tr : Json) : Json := Id.run do
+  let id := jstr sc "id"
+  let names := match jobj sc "cgroups" with | Json.obj kvs => kvs.toList.map (·.1) | _ => []
+  let target := jstr sc "target"
+  let A : Arith := { scale := fun r _ _ => r, avg := fun p c => p + c, ioCost := fun _ => 1, ratio := fun a _ => a }
+  let S : Sys := { swapTotal := 0, swapUsed := 0, rootUsage := .ok 0 }
+  let rows := jarr tr "ticks"
+  let mut viol : List String := []
+  let mut agree := !crashed tr
+  let mut diffs : List Json := []
+  if crashed tr then viol := viol ++ ["C10.accessor_no_crash"]
+  match ctxChain sc names target with
+  | [] => return verdict id false viol.isEmpty viol "ctx" [("model", "no-target")]
+  | l :: up =>
+    -- tick history: what the first tick leaves in the archive for the second (every accessor is called on every tick)
+    let first : Archive := { avg := 0, ioCost := none, pgScan := none }
+    let second : Archive :=
+      { avg := 1
+        ioCost := match ioCostCumulative A l.r with | .ok v => some v | _ => none
+        pgScan := match pgScanCumulative l.r with | .ok v => some v | _ => none }
+    let mut t : Nat := 0
+    for row in rows do
+      let ar := if t == 0 then first else second
+      for a in Acc.all do
+        let nm := accName a
+        match jstr? row nm with
+        | none => pure ()
+        | some implCls =>
+          let m := cls (evalAcc A S ar l up a)
+          if m != implCls then
+            agree := false
+            diffs := diffs ++ [Json.mkObj [("tick", t), ("acc", nm), ("model", m), ("impl", implCls)]]
+          if implCls != "ok" && implCls != "unavailable" then viol := viol ++ [s!"C10.accessor_no_crash:{nm}"]
+      -- the affected statistic is reported as unavailable
+      for f in jarr sc "faults" do
+        if jstr f "cg" == target && jstr f "state" != "content" then
+          for nm in dependents (jstr f "file") (jstr f "state") do
+            match jstr? row nm with
+            | some c => if c != "unavailable" then viol := viol ++ [s!"C10.affected_statistic_unavailable:{nm}"]
+            | none => pure ()
+      t := t + 1
+    return verdict id agree viol.isEmpty viol.eraseDups "ctx" [("diffs", Json.arr diffs.toArray)]
+
 def handle (j : Json) : Json :=
   let sc := jobj j "s"
   let tr := jobj j "t"
@@ -149,6 +286,7 @@ def handle (j : Json) : Json :=
   | "reader" => handleReader sc tr
   | "dtype" => handleDtype sc tr
   | "tick" => handleTick sc tr
+  | "ctx" => handleCtx sc tr
   | k => Json.mkObj [("id", Json.str (jstr sc "id")), ("error", Json.str s!"unknown kind {k}")]
 
 end Driver.Tick
